@@ -594,6 +594,18 @@ def prepare(assumptions, goal, rounds=12):
             ass.append(z3.Implies(w == z3.Empty(Str), t == z3.Empty(Str)))
         else:
             ass.append(z3.Implies(w == z3.Empty(Str), t == kids[comp]))
+        # a fold over rep(c, n): one step of the recursive definition of rep, pushed through the fold
+        if (z3.is_app(w) and w.decl().kind() == z3.Z3_OP_UNINTERPRETED and w.decl().name().startswith('rep_')
+                and w.num_args() == 1):
+            try:
+                ch = int(w.decl().name()[4:], 16)
+            except ValueError:
+                continue
+            n = w.arg(0)
+            q = tuple(kids[:-1])
+            st, o = _run_norm(fold, q, z3.Concat(rep(ch, n - 1), z3.Unit(z3.IntVal(ch))), {})
+            val = o if comp == 'o' else st[comp]
+            ass.append(z3.Implies(n > 0, t == val))
     return ass, goal
 
 
